@@ -844,7 +844,16 @@ class UnionByTypeMethod(DeserializationMethod):
             method: DeserializationMethod = self.method_by_cls[type(data)]
             return method.deserialize(data)
         except KeyError:
-            raise bad_type(data, *self.method_by_cls) from None
+            # no exact class match (int for float, subclass of a JSON class, ...):
+            # fall back to trying every alternative in order
+            error = None
+            for method in self.method_by_cls.values():
+                try:
+                    return method.deserialize(data)
+                except ValidationError as err:
+                    error = merge_errors(error, err)
+            assert error is not None
+            raise error
         except ValidationError as err:
             other_classes = (cls for cls in self.method_by_cls if cls is not type(data))
             raise merge_errors(err, bad_type(data, *other_classes))
